@@ -98,6 +98,10 @@ DETECTED = {
     'C18-g': ['C18: H18e out-of-range-value-falls-back-to-default (NaN)'],
     'C20-g': ['C20: H20c running-process-still-collected / stop-reported-to-the-compiler with other collected '
               'processes (added after the miss)'],
+    'C04-g': ['C04: H04b-single-instance target-knows-and-enables (SINGLE_INSTANCE moved into the quick tier after the '
+              'miss; it was explored in the thorough tier only)'],
+    'C14-g': ['C14: H14c strategy-order-with-pending-starts (three processes of one sequence; added after the miss)'],
+    'C19-g': [],
 }
 for line in open(sys.argv[1]):
     m = re.match(r'(C\d\d-\w): without=\[(.*?)\] with=\[(.*?)\] suite=\[(.*)\]', line.strip())
